@@ -29,12 +29,13 @@ MANIFEST = {
                  'oracle on the rendered text',
     'text': 'Every subset of the 12 modifiers, and every configuration with '
             '<= 3 (quick) / <= 4 (thorough) deviations from the default over '
-            'fmt (15 special + 4 method formats + %-format), C-format, '
+            'fmt (15 special + 17 method formats + 8 %-formats), C-format, '
             'modifiers, size/etc, null/missing, syntax (dtml/ssi/epfs/'
             'entity) and access (name/expression), is rendered on the real '
             'code with a TaintedString carrying "<" at every position of '
             'three carriers (each time right after the same text was '
-            'rendered untainted); the output must contain no "<" other than the '
+            'rendered untainted), plus all written orders of 2 and 3 of 9 '
+            'modifiers; the output must contain no "<" other than the '
             '<br /> that newline_to_br inserts, and never "&amp;lt;".',
     'note': 'Trusted: AccessControl.tainted.TaintedString as the taint mark; '
             'the author-supplied texts (etc, null, missing) contain no "<". '
@@ -67,7 +68,8 @@ METHODS = ['upper', 'lower', 'strip', 'title', 'casefold', 'swapcase',
 CARRIERS = ['qz1234567.5', "q_z %3C'", 'q\nz']
 
 # atoms: (dimension, alternative)
-ATOMS = [('fmt', f) for f in SPECIAL + METHODS + ['%s!']] + \
+CFMTS = ['%s!', '%d', '%.2f', '$%.2f each', '%x', '%c', '%5s', '[%r]']
+ATOMS = [('fmt', f) for f in SPECIAL + METHODS + CFMTS] + \
         [('cfmt', c) for c in ('10s', '.3s')] + \
         [('mod:' + m, 1) for m in MODS] + \
         [('size', n) for n in range(0, 5)] + \
@@ -145,6 +147,19 @@ def cases(tier):
             atoms = [['mod:' + m, 1] for m in sub]
             seen.add(tuple(map(tuple, atoms)))
             yield {'atoms': atoms}
+    # modifiers written in every order (the order in the tag must not
+    # matter, also not for the taint mark)
+    order_mods = ['html_quote', 'url_quote', 'url_unquote', 'url_unquote_plus',
+                  'newline_to_br', 'spacify', 'sql_quote', 'thousands_commas',
+                  'lower']
+    for k in (2, 3):
+        for perm in itertools.permutations(order_mods, k):
+            if list(perm) == sorted(perm, key=MODS.index):
+                continue                  # canonical order: covered above
+            yield {'atoms': [['mod:' + m, 1] for m in perm]}
+            if k == 2:
+                yield {'atoms': [['mod:' + m, 1] for m in perm] +
+                       [['syntax', 'entity']]}
     for k in range(1, maxdev + 1):
         for combo in itertools.combinations(ATOMS, k):
             dims = [a[0] for a in combo]
